@@ -847,6 +847,8 @@ func isNilRef(x value) bool {
 		return x == nil
 	case *ssa.Builtin:
 		return x == nil
+	case *boundMethod:
+		return x == nil
 	case []value:
 		return x == nil
 	}
